@@ -2204,6 +2204,16 @@ void Interpreter::assign_struct_to_array_element(const std::string &array_name,
         throw std::runtime_error("Not a struct array: " + array_name);
     }
 
+    // constチェック: the array itself, or the struct variable it is a member
+    // of (`c.items[i] = t`: the member variable `c.items` carries no const)
+    Variable *root_var =
+        find_variable(array_name.substr(0, array_name.find_first_of(".[")));
+    if (array_var->is_const || (root_var && root_var->is_const)) {
+        error_msg(DebugMsgId::CONST_REASSIGN_ERROR, array_name.c_str());
+        throw std::runtime_error(
+            "Cannot assign to element of const struct array: " + array_name);
+    }
+
     // 範囲チェック
     if (index < 0 || index >= array_var->array_size) {
         debug_msg(DebugMsgId::ARRAY_INDEX_OUT_OF_BOUNDS, index,
